@@ -737,7 +737,10 @@ outerNew:
 				}
 			}
 
-			if cursor.Hyperlink != next.Hyperlink {
+			// the same target under other parameters (another id) is
+			// another hyperlink
+			if cursor.Hyperlink != next.Hyperlink ||
+				(next.Hyperlink != "" && cursor.HyperlinkParams != next.HyperlinkParams) {
 				link := next.Hyperlink
 				linkPs := next.HyperlinkParams
 				if link == "" {
